@@ -123,6 +123,19 @@ int main(int argc, char **argv)
         }
         return 0;
     }
+    if (mode == "tostring") {
+        // one hexadecimal floating-point literal per line -> convertToString(value) as hex, and what convertToDouble reads back
+        std::string line;
+        while (std::getline(std::cin, line)) {
+            double d = strtod(line.c_str(), nullptr);
+            std::string t = convertToString(d);
+            double back = 0.0;
+            bool ok = isCellMLReal(t) && convertToDouble(t, back);
+            char b[64]; snprintf(b, sizeof b, "%a", back);
+            printf("%s %d %s\n", hx::toHex(t).c_str(), ok ? 1 : 0, b);
+        }
+        return 0;
+    }
     if (mode == "num") {
         std::string line;
         while (std::getline(std::cin, line)) {
